@@ -93,6 +93,14 @@ def observe_bay_aero(pd, req):
         b.beta, b.aeromu = 1.0, float(fr(req["aeromu"]))
     if req.get("k0first", True):
         b.calc_k0(silent=True)
+    if req.get("sweep") and q != "cA":
+        keep = (b.Mach, b.rho_air, b.V, b.speed_sound, b.beta, b.gamma)
+        if q == "kAmach":
+            b.Mach, b.rho_air, b.V, b.speed_sound = 2.0, 0.75, 5.0, 1.5
+        else:
+            b.beta, b.gamma = 1.75, 0.
+        b.calc_kA(silent=True)
+        b.Mach, b.rho_air, b.V, b.speed_sound, b.beta, b.gamma = keep
     M = b.calc_cA(silent=True) if q == "cA" else b.calc_kA(silent=True)
     A = M.toarray()
     ok = True
@@ -138,10 +146,16 @@ def observe(pd, req, fresh_model=True):
             M = p.calc_kM(silent=True, **kw) if not req.get("nofin") else _fin(p.calc_kM(silent=True, finalize=False, **kw))
         elif q == "kA":
             p.flow = req["flow"]
+            if req.get("sweep"):           # a parameter sweep on one object: another flow condition first
+                p.beta, p.gamma = 1.75, (0.5 if float(fr(req["gamma"])) else 0.)
+                p.calc_kA(silent=True, **kw)
             p.beta, p.gamma = float(fr(req["beta"])), float(fr(req["gamma"]))
             M = p.calc_kA(silent=True, **kw)
         elif q == "kAmach":
             p.flow = req["flow"]
+            if req.get("sweep"):
+                p.Mach, p.rho_air, p.V, p.speed_sound = 2.0, 0.75, 5.0, 1.5
+                p.calc_kA(silent=True, **kw)
             p.Mach, p.rho_air, p.V, p.speed_sound = (float(fr(req[k])) for k in ("mach", "rho", "V", "ainf"))
             M = p.calc_kA(silent=True, **kw)
         elif q == "cA":
@@ -323,7 +337,7 @@ def observe_load(p, pd, req, kw):
 def jreq(r):
     out = dict(q=r["q"], size=r.get("size", 0), row0=r.get("row0", 0), col0=r.get("col0", 0))
     for k in ("N", "flow", "beta", "gamma", "aeromu", "c", "pts", "NL", "forces", "forcesInc", "inc", "cores", "num", "extra", "table",
-              "mach", "root", "rho", "V", "ainf", "via", "k0first", "taper", "route", "ctor", "nofin"):
+              "mach", "root", "rho", "V", "ainf", "via", "k0first", "taper", "route", "ctor", "nofin", "sweep"):
         if k in r:
             out[k] = r[k]
     return out
@@ -410,6 +424,8 @@ def random_req(rng, pd, q):
                                  (Fraction(13, 5), Fraction(12, 5)), (Fraction(17, 8), Fraction(15, 8))])
         r.update(flow=rng.choice("xy"), mach=rat(mach), root=rat(root), rho=rat(Fraction(rng.randint(1, 16), 8)),
                  V=rat(Fraction(rng.randint(4, 40), 4)), ainf=rat(Fraction(rng.randint(4, 16), 4)))
+    if q in ("kA", "kAmach") and rng.random() < 0.5:
+        r["sweep"] = True
     if q in ("kA", "cA", "kAmach") and rng.random() < 0.35:
         r["via"] = "bay"
         r["k0first"] = rng.random() < 0.6
@@ -496,6 +512,7 @@ def run_prop(prop, qs, tier, seed, build, nrand_quick=40, nrand_thorough=600, wh
     pairs = [(pd, r) for pd, r in pairs if r["q"] in qs]
     if set(qs) & {"kA", "cA", "kAmach"}:   # the lattice aerodynamic cases also through a stiffener-less bay
         pairs += [(pd, dict(r, via="bay", k0first=(k % 2 == 0))) for k, (pd, r) in enumerate(pairs) if pd["model"] != "plate_w"]
+        pairs += [(pd, dict(r, sweep=True)) for (pd, r) in pairs if r["q"] in ("kA", "kAmach") and not r.get("via")]
     if "static" in qs:   # the lattice load cases are also solved
         pairs += [(pd, dict(r, q="static", inc=rat(1), route=k % 6)) for k, (pd, r) in enumerate(pairs)
                   if r["q"] == "fext" and fr(r["inc"]) == 1]
@@ -516,6 +533,8 @@ def run_prop(prop, qs, tier, seed, build, nrand_quick=40, nrand_thorough=600, wh
     for _ in range(nrand):
         pd = random_pd(rng, models)
         q = rng.choice(qs)
+        if q == "uvw" and rng.random() < 0.25:
+            pd = random_pd(rng, ["plate_w"])          # the w-only model offers displacements only
         r = random_req(rng, pd, q)
         if q in ("kA", "kAmach"):
             restrain_flow_edges(pd, r["flow"])
